@@ -86,8 +86,10 @@ func (c *connection) reader() {
 					slog.Any("err", err))
 				return
 			} else if n > 0 {
+				verifAt(c, "R.read", n)
 				effectiveData := curData[:n]
 				msgs, err := pack.parse(effectiveData)
+				verifAt(c, "R.parsed", len(msgs), err)
 				if err != nil {
 					slog.Error("parse data",
 						slog.Bool("join", join),
@@ -109,7 +111,9 @@ func (c *connection) reader() {
 						continue
 					}
 					if !join {
+						verifAt(c, "R.join.before")
 						key, err := c.joinFunc(msg, c.activeMsgChan)
+						verifAt(c, "R.join.after", key, err)
 						if err == nil {
 							join = true
 							c.key = key
@@ -122,7 +126,9 @@ func (c *connection) reader() {
 							return
 						}
 					}
+					verifAt(c, "R.enq.before", uint16(msg.Command), msg.ExtensionFields.TerminalSeq)
 					c.msgChan <- msg
+					verifAt(c, "R.enq.after")
 				}
 			}
 		}
@@ -132,15 +138,19 @@ func (c *connection) reader() {
 func (c *connection) write() {
 	record := map[uint16]*ActiveMessage{}
 	for {
+		verifAt(c, "W.top", len(record))
 		select {
 		case <-c.stopChan:
 			clear(record)
+			verifAt(c, "W.exit")
 			return
 		case activeMsg, ok := <-c.activeMsgChan: // 平台主动下发的
+			verifAt(c, "W.sel.active", ok)
 			if ok {
 				c.onActiveEvent(activeMsg, record)
 			}
 		case msg, ok := <-c.activeMsgCompleteChan: // 平台主动下发的完成情况
+			verifAt(c, "W.sel.complete", ok)
 			if ok {
 				seq := msg.ExtensionFields.PlatformSeq
 				if v, ok := record[seq]; ok {
@@ -149,14 +159,17 @@ func (c *connection) write() {
 					msg.ExtensionFields.ActiveSend = true
 					c.onWriteExecutionEvent(msg)
 					v.replyChan <- msg
+					verifAt(c, "W.complete.delivered", seq)
 					delete(record, seq)
 				}
 			}
 		case subPackMsg, ok := <-c.reissuePackChan: // 分包补传的
+			verifAt(c, "W.sel.reissue", ok)
 			if ok {
 				c.subPackReplyEvent(subPackMsg)
 			}
 		case msg, ok := <-c.msgChan: // 终端上传的
+			verifAt(c, "W.sel.msg", ok)
 			if ok {
 				if len(record) > 0 && msg.hasComplete() { // 说明现在有主动的请求 等待回复中
 					if c.onActiveRespondEvent(record, msg) {
@@ -173,15 +186,20 @@ func (c *connection) write() {
 
 func (c *connection) stop() {
 	c.stopOnce.Do(func() {
+		verifAt(c, "S.begin")
 		c.leaveFunc(c.key)
+		verifAt(c, "S.left")
 		c.terminalEvent.OnLeaveEvent(c.key)
 		close(c.stopChan)
+		verifAt(c, "S.stopClosed")
 		_ = c.conn.Close()
+		verifAt(c, "S.connClosed")
 		clear(c.handles)
 		close(c.msgChan)
 		close(c.activeMsgChan)
 		close(c.activeMsgCompleteChan)
 		close(c.reissuePackChan)
+		verifAt(c, "S.chansClosed")
 	})
 }
 
@@ -189,6 +207,7 @@ func (c *connection) defaultReplyEvent(msg *Message) {
 	if has := msg.HasReply(); !has {
 		return
 	}
+	verifAt(c, "W.reply.before", msg.ExtensionFields.TerminalSeq)
 	body, err := msg.ReplyBody(msg.JTMessage)
 	if err != nil {
 		slog.Warn("reply body fail",
@@ -244,13 +263,16 @@ func (c *connection) onActiveEvent(activeMsg *ActiveMessage, record map[uint16]*
 		Data:        data,
 	}
 	record[seq] = activeMsg
+	verifAt(c, "W.active.recorded", seq)
 	_, err := c.conn.Write(data)
+	verifAt(c, "W.active.written", seq, err)
 	replyMsg := newActiveMessage(seq, activeMsg.Command, data, err)
 	if v, ok := c.handles[activeMsg.Command]; ok {
 		replyMsg.Handler = v
 	}
 	if err != nil {
 		replyMsg.ExtensionFields.Err = errors.Join(ErrWriteDataFail, err)
+		verifAt(c, "W.active.failsend.before", seq)
 		c.activeMsgCompleteChan <- replyMsg
 	} else if activeMsg.OverTimeDuration >= 0 {
 		duration := 3 * time.Second
@@ -259,14 +281,17 @@ func (c *connection) onActiveEvent(activeMsg *ActiveMessage, record map[uint16]*
 		}
 		go func(overtimeMsg *Message) {
 			time.Sleep(duration)
+			verifAt(c, "T.fire", seq)
 			select {
 			case <-c.stopChan:
 				return
 			default:
 			}
+			verifAt(c, "T.checked", seq)
 			overtimeMsg.ExtensionFields.Err = errors.Join(ErrWriteDataOverTime,
 				fmt.Errorf("overtime is [%.2f]second", duration.Seconds()))
 			c.activeMsgCompleteChan <- overtimeMsg
+			verifAt(c, "T.sent", seq)
 		}(replyMsg)
 	}
 }
@@ -328,6 +353,7 @@ func (c *connection) onActiveRespondEvent(record map[uint16]*ActiveMessage, msg 
 		for k := range record {
 			if tmp.HasRespondFunc(k) {
 				msg.ExtensionFields.PlatformSeq = k
+				verifAt(c, "W.resp.match", k)
 				c.activeMsgCompleteChan <- msg
 				return true
 			}
